@@ -244,7 +244,9 @@ int main(int argc, char ** argv)
       });
       DeepSteerStats ds2 = deep_steer(R.tape, seed, (stream0 << 24) + (1ULL << 23) + 64, thr, pass2, 4, [&](const std::string & steer, size_t & d) {
         d = R.one(steer);
-        return R.last_sig * 1000003ull + (uint64_t)d;
+        // (the count is capped: every further rejection would be a new signature, and the search would walk into ever longer loops -
+        //  a thorough run spent hours on events of 1e5 deviates)
+        return R.last_sig * 1000003ull + std::min<uint64_t>((uint64_t)d, 400);
       });
       ds.events += ds2.events;
       ds.nodes_expanded += ds2.nodes_expanded;
